@@ -50,7 +50,12 @@ RULE = ("Documents are rendered from abstract trees; the oracle is the tree that
         "contents (plain, more-indented lines, empty, leading/trailing blank lines, the other quote style, format "
         "metacharacters) x doc-string on the last step / followed by a step / by a step with a table / by the next "
         "tagged scenario x 7 contexts (scenario, background, rule background, rule scenario, outline before Examples, "
-        "parse_steps, parse_scenario) x indent styles. "
+        "parse_steps, parse_scenario) x indent styles. (5c) steps carrying a doc-string AND a table: either order x "
+        "doc-string indented like / 2 deeper / 2 shallower than the table / at column 0 x both quote styles x 4 "
+        "contents (plain, more-indented + blank lines, empty, format metacharacters + row-like line) x 3 tables x "
+        "closing delimiter column x last step / followed by a step x 6 contexts (scenario, background, rule "
+        "background, outline template, parse_steps, parse_scenario) x indent styles; such arguments also rotate "
+        "through the shapes of (1) and the layouts of (3). "
         "(6) ModelDescriptor.describe_table / describe_docstring re-parsed. (7) E2: breadth-first search over "
         "line histories of a 20-kind well-formed-line alphabet on the real Parser (canonical abstraction of C05) for "
         "parse_feature and parse_steps, plus all sequences <= 3 (quick) / <= 4 (thorough) lines: whenever the real "
@@ -67,7 +72,10 @@ ASSUMPTIONS = [
     "'*' as first step of an element: 'given' or the type supplied by the background are both accepted (statement silent)",
     "parse_scenario is only given plain scenarios",
     "in the E2 part histories that the reference grammar leaves unspecified (keyword-like or table-like lines where "
-    "free-form description text is allowed, steps after an Examples table, two arguments on one step) are not compared",
+    "free-form description text is allowed, steps after an Examples table, two tables or two doc-strings on one step) "
+    "are not compared; a step with one doc-string and one table (either order) is compared",
+    "a step with two tables or two doc-strings is not rendered: behave accepts it and silently keeps only the last "
+    "one (a step has one .text and one .table); no Gherkin grammar allows it, so it is outside 'well-formed'",
     "the keyword table is etc/gherkin/gherkin-languages.json of the repository under test (the upstream data that "
     "behave/i18n.py is generated from), so that a keyword missing from i18n.py is noticed",
     "BEHAVE_STRIP_STEPS_WITH_TRAILING_COLON is unset (./check scrubs BEHAVE_*); step names do not end in ':'",
@@ -655,6 +663,67 @@ def docclose_cases(thorough):
                             yield (context, quote, close, ti, follow, indent)
 
 
+# ================================================================ (5c) doc-string AND table on one step
+BOTH_ORDER = ("text", "table")
+BOTH_SHIFT = (0, 2, -2, -100)          # doc-string indented like / deeper than / shallower than the table / at column 0
+BOTH_TEXTS = ((u"plain line",), (u"first", u"  indented more", u"", u"last"), (), (u"{name} {} %s", u"| row | like |"))
+BOTH_TABLES = (([u"h1"], [[u"c1"]]), ([u"h1", u"h2"], [[u"a", u""], [u"x\\|y", u"\xfc"]]), ([u"only", u"headings"], []))
+BOTH_CONTEXTS = ("scenario", "background", "rule-background", "outline", "parse_steps", "parse_scenario")
+
+
+def both_doc(context, order, shift, quote, ti, tab, close, follow):
+    S = gr.STEP_NAMES
+    h, rows = BOTH_TABLES[tab]
+    arg = ("both", order, ("text", quote, list(BOTH_TEXTS[ti]), close, shift), ("table", list(h), [list(r) for r in rows]))
+    steps = [("given", S[0], None), ("when", S[1] if context != "outline" else S[1], arg)]
+    if follow:
+        steps.append(("then", S[2], None))
+    scen = {"k": "scenario", "tags": [], "name": u"n1", "desc": [], "steps": steps}
+    if context == "parse_steps":
+        return "steps", gr.render_steps(steps)
+    if context == "parse_scenario":
+        return "scenario", gr.render_scenario(scen)
+    doc = {"lang": "en", "tags": [], "name": u"n1", "desc": [], "bg": None, "items": [scen]}
+    plain = {"k": "scenario", "tags": [u"t1"], "name": u"n1", "desc": [], "steps": [("then", S[0], None)]}
+    if context == "background":
+        doc["bg"] = {"name": u"", "desc": [], "steps": steps}
+        doc["items"] = [plain]
+    elif context == "rule-background":
+        doc["items"] = [{"k": "rule", "tags": [], "name": u"R", "desc": [],
+                         "bg": {"name": u"", "desc": [], "steps": steps}, "items": [plain]}]
+    elif context == "outline":
+        doc["items"] = [{"k": "outline", "tags": [], "name": u"O <x>", "desc": [], "steps": steps,
+                         "examples": [{"tags": [], "name": u"", "table": ([u"x"], [[u"1"]])}]}, plain]
+    return "feature", doc
+
+
+def check_both(case):
+    context, order, shift, quote, ti, tab, close, follow, indent = case
+    entry, r = both_doc(context, order, shift, quote, ti, tab, close, follow)
+    if entry == "feature":
+        r = gr.render(r, {"indent": indent})
+    elif indent != "2":
+        return {"n": 0, "out": "not-applicable"}
+    got = _parse(entry, r["text"])
+    v = compare("model", entry, r, got, {})
+    v = [(d, "[step with doc-string and table, %s first, doc-string shifted by %r, %s] %s" % (order, shift, context, m))
+         for d, m in v]
+    return {"v": v, "nt": digest(r["text"]), "out": ("both", context, order, shift), "dg": got}
+
+
+def both_cases(thorough):
+    for context in BOTH_CONTEXTS:
+        for order in BOTH_ORDER:
+            for shift in BOTH_SHIFT:
+                for quote in (DQ, SQ):
+                    for ti in range(len(BOTH_TEXTS)):
+                        for tab in range(len(BOTH_TABLES)):
+                            for close in ((0, 1, "col0") if thorough else (0, "col0")):
+                                for follow in (False, True):
+                                    for indent in (("2", "0", "4", "tab") if thorough else ("2", "tab")):
+                                        yield (context, order, shift, quote, ti, tab, close, follow, indent)
+
+
 # ================================================================ (6) ModelDescriptor round trip
 def check_roundtrip(case):
     kind, idx, indentation = case
@@ -851,8 +920,8 @@ def attach(entry, hist):
                 if not stmt["steps"]:
                     return INVALID
                 last = stmt["steps"][-1]
-                if last["text"] is not None or last["table"] is not None:
-                    return UNSPEC
+                if last["table"] is not None:
+                    return UNSPEC           # a second table on the same step
                 last["table"] = {"kind": "table", "headings": cells, "line": n, "rows": []}
                 table = ("step", last["table"])
                 zone = "table"
@@ -867,11 +936,13 @@ def attach(entry, hist):
         if name in ("dq", "sq"):
             if zone == "steps" and stmt["steps"]:
                 last = stmt["steps"][-1]
-                if last["text"] is not None or last["table"] is not None:
-                    return UNSPEC
+                if last["text"] is not None:
+                    return UNSPEC           # a second doc-string on the same step
                 doc = {"q": name, "line": n, "lines": []}
             elif zone == "table" and table[0] == "step":
-                return UNSPEC
+                if stmt["steps"][-1]["text"] is not None:
+                    return UNSPEC
+                doc = {"q": name, "line": n, "lines": []}      # doc-string after the step's table: same step
             else:
                 return UNSPEC if zone == "desc" else INVALID
             continue
@@ -1034,6 +1105,7 @@ def run(ctx):
     # (5)
     ctx.sweep(check_entry, entry_cases(thorough), chunk=32, name="parse_steps/scenario/rule/tags")
     ctx.sweep(check_docclose, docclose_cases(thorough), chunk=64, name="doc-string delimiter layouts")
+    ctx.sweep(check_both, both_cases(thorough), chunk=64, name="doc-string and table on one step")
     # (6)
     ctx.sweep(check_roundtrip, roundtrip_cases(), chunk=8, name="ModelDescriptor round trip")
     # (7)
